@@ -473,13 +473,13 @@ def part_from_matchfile(
     # compute necessary divs based on the types of notes in the
     # match snotes (only integers)
     divs_arg = [
-        max(int((beat_type_map(note.OnsetInBeats) / 4)), 1)
+        max(int((beat_type_map_from_beats(note.OnsetInBeats) / 4)), 1)
         * note.Offset.denominator
         * (note.Offset.tuple_div or 1)
         for note in snotes
     ]
     divs_arg += [
-        max(int((beat_type_map(note.OnsetInBeats) / 4)), 1)
+        max(int((beat_type_map_from_beats(note.OnsetInBeats) / 4)), 1)
         * note.Duration.denominator
         * (note.Duration.tuple_div or 1)
         for note in snotes
@@ -488,15 +488,27 @@ def part_from_matchfile(
     onset_in_beats = np.array([note.OnsetInBeats for note in snotes])
     unique_onsets, inv_idxs = np.unique(onset_in_beats, return_inverse=True)
 
-    iois_in_beats = np.diff(unique_onsets)
-    beat_to_quarter = 4 / beat_type_map(onset_in_beats)
+    # positions in beats to positions in quarters: piecewise linear between
+    # the time signature changes (the beat unit changes with the denominator)
+    ts_x = np.array([t for t, _, _ in ts], dtype=float)
+    ts_den = np.array([tsg.denominator for _, _, tsg in ts], dtype=float)
+    ts_x_q = np.cumsum(np.r_[ts_x[0] * 4 / ts_den[0], 4 * np.diff(ts_x) / ts_den[:-1]])
 
-    iois_in_quarters_offset = np.r_[
-        beat_to_quarter[0] * onset_in_beats[0],
-        (4 / beat_type_map(unique_onsets[:-1])) * iois_in_beats,
-    ]
-    onset_in_quarters = np.cumsum(iois_in_quarters_offset)
+    def beats_to_quarters(b):
+        i = np.clip(np.searchsorted(ts_x, b, side="right") - 1, 0, len(ts_x) - 1)
+        return ts_x_q[i] + (b - ts_x[i]) * 4 / ts_den[i]
+
+    onset_in_quarters = beats_to_quarters(unique_onsets)
     iois_in_quarters = np.diff(onset_in_quarters)
+
+    # the distances between the onsets (e.g. a pickup that ends with a short
+    # rest) may need finer divisions than the offsets and durations
+    for onset_q in onset_in_quarters:
+        for den in range(1, 961):
+            # positions in beats carry four decimals
+            if abs(onset_q * den - round(onset_q * den)) < 2.5e-4 * den:
+                divs_arg.append(den)
+                break
 
     # ___ these divs are relative to quarters;
     divs = np.lcm.reduce(np.unique(divs_arg))
@@ -505,8 +517,7 @@ def part_from_matchfile(
 
     part.set_quarter_duration(0, divs)
     bars = np.unique([n.Measure for n in snotes])
-    t = min_time
-    t = t * 4 / beat_type_map(min_time)
+    t = float(beats_to_quarters(min_time))
     offset = t
     bar_times = {}
 
@@ -515,10 +526,10 @@ def part_from_matchfile(
         # measure, add a rest (dummy)
         # if starting beat is above zero, add padding
         rest = score.Rest()
-        part.add(rest, start=0, end=t * divs)
+        part.add(rest, start=0, end=int(round(t * divs)))
         onset_in_divs += t * divs
         offset = 0
-        t = t - t % beats_map(min_time)
+        t = t - t % beats_map_from_beats(min_time)
 
     for b_name in bars:
         notes_in_this_bar = [
@@ -547,7 +558,9 @@ def part_from_matchfile(
         barline_in_quarters = (
             onset_in_quarters[a_note_id_in_this_bar] - bar_offset - beat_offset
         )
-        bar_times[b_name] = barline_in_quarters
+        # barlines lie on the grid of divisions (the positions in beats carry
+        # four decimals only)
+        bar_times[b_name] = np.round(barline_in_quarters * divs) / divs
 
     for ni, note in enumerate(snotes):
         # start of bar in quarter units
@@ -580,7 +593,7 @@ def part_from_matchfile(
             warnings.warn(
                 "Calculated `onset_divs` does not match `OnsetInBeats` " "information!."
             )
-            onset_divs = onset_in_divs[ni]
+            onset_divs = int(round(onset_in_divs[ni]))
         assert onset_divs >= 0
         assert np.isclose(onset_divs, onset_in_divs[ni], atol=divs * 0.01)
         is_tied = False
